@@ -259,6 +259,11 @@ func derivesFrom(v ssa.Value, pred func(ssa.Value) bool) bool {
 					}
 				}
 			}
+		case *ssa.FreeVar:
+			// a variable captured by reference: what the enclosing functions store into it
+			if cell := capturedCellDeep(x); cell != nil {
+				return walk(cell, d+1)
+			}
 		case *ssa.UnOp:
 			if x.Op == token.MUL {
 				if al, ok := x.X.(*ssa.Alloc); ok {
